@@ -202,4 +202,52 @@ theorem blocksOf_stream (ann : Ann ρ χ μ) (n : Nat) (hn : 0 < n) : ∀ (fuel 
     · rename_i hlt
       exact blocksOf_short n _ (by rw [stream_length]; omega)
 
+/-- what `concat(group, axis=-1)` returns for a group of chunks of the stream -/
+def jt (ann : Ann ρ χ μ) (g : List (PD α ρ χ μ)) : PD α ρ χ μ :=
+  match g with
+  | [] => { data := [], s0 := 0, ann := ann }
+  | a :: _ => { data := outData g, s0 := a.s0, ann := ann }
+
+theorem jt_stream (ann : Ann ρ χ μ) (g : List (List α)) (s : Int) (hg : g ≠ []) :
+    jt ann (stream ann s g) = { data := g.flatten, s0 := s, ann := ann } := by
+  cases g with
+  | nil => exact absurd rfl hg
+  | cons c g =>
+    have := (stream_emits ann (c :: g) s).data
+    simp only [stream] at this ⊢
+    simp only [jt, this]
+
+theorem groupStreams_spec (ann : Ann ρ χ μ) (n : Nat) (hn : 0 < n) : ∀ (fuel : Nat) (cs : List (List α)) (s : Int),
+    cs.length ≤ fuel →
+    (∀ g ∈ groupStreams ann n fuel s cs, joinTime g = .ok (jt ann g)) ∧
+    Emits ((groupStreams ann n fuel s cs).map (jt ann)) (cs.take (cs.length / n * n)).flatten 1 s ann := by
+  intro fuel
+  induction fuel with
+  | zero =>
+    intro cs s h
+    have : cs = [] := List.eq_nil_of_length_eq_zero (by omega)
+    subst this
+    exact ⟨by simp [groupStreams], by simpa [groupStreams] using Emits.nil 1 s ann⟩
+  | succ fuel ih =>
+    intro cs s h
+    simp only [groupStreams]
+    split
+    · rename_i hge
+      have hne : cs.take n ≠ [] := by
+        intro h0; have := congrArg List.length h0; rw [List.length_take, List.length_nil] at this; omega
+      obtain ⟨ih1, ih2⟩ := ih (cs.drop n) (s + (cs.take n).flatten.length) (by simp; omega)
+      have hj0 : joinTime (stream ann s (cs.take n)) = .ok (jt ann (stream ann s (cs.take n))) := by
+        rw [joinTime_stream ann _ s hne, jt_stream ann _ s hne]
+      constructor
+      · intro g hg
+        rcases List.mem_cons.mp hg with rfl | hg
+        · exact hj0
+        · exact ih1 g hg
+      · rw [List.map_cons, jt_stream ann _ s hne]
+        refine Emits.cons _ ih2 rfl rfl (by simp [PD.len]) ?_
+        rw [List.length_drop, div_mul_step n cs.length hn hge, List.take_add, List.flatten_append]
+    · rename_i hlt
+      have hlt : cs.length < n := by omega
+      exact ⟨by simp, by simpa [Nat.div_eq_of_lt hlt] using Emits.nil 1 s ann⟩
+
 end Psi.StagesExt
